@@ -25,6 +25,10 @@ impl<'a, T: VecData<T> + 'a, C: Comparator<T> + fmt::Debug> VecOperator<'a> for 
         let mut indices = scratchpad.get_mut(self.indices);
         let mut keys = scratchpad.get_mut(self.keys);
 
+        if self.n == 0 {
+            // LIMIT 0: nothing is kept, and there is no `keys[0]` to compare against
+            return Ok(());
+        }
         assert_eq!(indices.len(), keys.len());
         if indices.len() < indices.capacity() {
             let count = cmp::min(indices.capacity() - indices.len(), input.len());
